@@ -310,7 +310,7 @@ theorem MemberOk.error {n d oty} (h : MemberOk (.error n d oty)) : StructOk (err
 theorem MemberOk.alias {n d ty} (h : MemberOk (.alias n d ty)) : ty.homogeneous = true :=
   h.1 ty (by simp [Member.types])
 
-theorem aliasDecl_isSome (m : Member) (h : MemberOk m) : (aliasDecl m).isSome = true := by
+theorem aliasDecl_isSome (t : Idl) (m : Member) (h : MemberOk m) : (aliasDecl t m).isSome = true := by
   cases m with
   | alias n d ty => exact map_writeType_isSome ty _ _ _ h.alias
   | method => rfl
@@ -394,7 +394,7 @@ theorem memberOk_of_domain (t : Idl) (h1 : t.homogeneous = true) (h2 : ioStructs
 theorem bodyText_isSome (t : Idl) (h : ∀ m ∈ t.members, MemberOk m) : (bodyText t).isSome = true := by
   have sub : ∀ (p : Member → Bool), ∀ m ∈ t.members.filter p, MemberOk m :=
     fun p m hm => h m (List.mem_filter.mp hm).1
-  obtain ⟨a1, e1⟩ := isSome_of_eq (concatOpt_isSome aliasDecl t.aliases (fun m hm => aliasDecl_isSome m (sub _ m hm)))
+  obtain ⟨a1, e1⟩ := isSome_of_eq (concatOpt_isSome (aliasDecl t) t.aliases (fun m hm => aliasDecl_isSome t m (sub _ m hm)))
   obtain ⟨a2, e2⟩ := isSome_of_eq (concatOpt_isSome (errorDecl t.name) t.errors (fun m hm => errorDecl_isSome _ m (sub _ m hm)))
   obtain ⟨a3, e3⟩ := isSome_of_eq (concatOpt_isSome (methodClient t.name) t.methods (fun m hm => methodClient_isSome _ m (sub _ m hm)))
   obtain ⟨a4, e4⟩ := isSome_of_eq (concatOpt_isSome ifaceMethod t.methods (fun m hm => ifaceMethod_isSome m (sub _ m hm)))
@@ -503,7 +503,7 @@ theorem concatOptL_isSome {α β} (f : α → Option (List β)) :
     obtain ⟨y, hy⟩ := isSome_of_eq (concatOptL_isSome f r (fun b hb => h b (by simp [hb])))
     simp [concatOptL, hx, hy]
 
-theorem aliasView_isSome (m : Member) (h : MemberOk m) : (aliasView m).isSome = true := by
+theorem aliasView_isSome (t : Idl) (m : Member) (h : MemberOk m) : (aliasView t m).isSome = true := by
   cases m with
   | alias n d ty => simp [aliasView, goTy_isSome ty true h.alias]
   | method => rfl
@@ -593,7 +593,7 @@ theorem genFile_isSome (t : Idl) (h : ∀ m ∈ t.members, MemberOk m) : (genFil
   have sub : ∀ (p : Member → Bool), ∀ m ∈ t.members.filter p, MemberOk m :=
     fun p m hm => h m (List.mem_filter.mp hm).1
   obtain ⟨a0, e0⟩ := isSome_of_eq (bodyText_isSome t h)
-  obtain ⟨a1, e1⟩ := isSome_of_eq (concatOptL_isSome aliasView t.aliases (fun m hm => aliasView_isSome m (sub _ m hm)))
+  obtain ⟨a1, e1⟩ := isSome_of_eq (concatOptL_isSome (aliasView t) t.aliases (fun m hm => aliasView_isSome t m (sub _ m hm)))
   obtain ⟨a2, e2⟩ := isSome_of_eq (concatOptL_isSome errorView t.errors (fun m hm => errorView_isSome m (sub _ m hm)))
   obtain ⟨a3, e3⟩ := isSome_of_eq (concatOptL_isSome (methodClientView t.name) t.methods (fun m hm => methodClientView_isSome _ m (sub _ m hm)))
   obtain ⟨a4, e4⟩ := isSome_of_eq (concatOptL_isSome ifaceMethodView t.methods (fun m hm => ifaceMethodView_isSome m (sub _ m hm)))
@@ -606,7 +606,7 @@ theorem genFile_isSome (t : Idl) (h : ∀ m ∈ t.members, MemberOk m) : (genFil
 /-- inversion of `genFile` -/
 theorem genFile_inv {t : Idl} {f : GoFile} (hf : genFile t = some f) :
     ∃ body aliases errors clients ifaceMethods errorReplies methodReplies dummies cases,
-      bodyText t = some body ∧ concatOptL aliasView t.aliases = some aliases
+      bodyText t = some body ∧ concatOptL (aliasView t) t.aliases = some aliases
       ∧ concatOptL errorView t.errors = some errors
       ∧ concatOptL (methodClientView t.name) t.methods = some clients
       ∧ concatOptL ifaceMethodView t.methods = some ifaceMethods
